@@ -1704,3 +1704,141 @@ class C18(Prop):
 
 
 register(C18())
+
+
+# ======================================================================================
+# C17 - construction and conversion (aliasing / identity clauses)
+# ======================================================================================
+class C17(Prop):
+    id = "C17"
+    title = "construction and conversion: copying, aliasing, identity"
+    rule = (
+        "histories of construction/conversion events (tensor/Tensor/astensor/asarray with copy/dtype/constant options on caller arrays and "
+        "on tensors with or without a graph, copy(), astype()) followed by later writes of the caller into its arrays and by ops/backward; the "
+        "aliasing model is confirmed by the actual later writes, astensor(t) identity keeps graph and gradient (twin without the call), "
+        "copy()/astype() results are detached.  non-trivial when >=1 later write was checked against >=1 tensor built from that array"
+    )
+    expected_probes = ["c17.construction_checked", "c17.conversion_checked", "c17.later_write_checked"]
+
+    def generate(self, rng):
+        cfg = {
+            "lane": rng.choice(["guard_on", "guard_off"]),
+            "id_policy": "never",
+            "max_elems": 6,
+            "max_ndim": 2,
+            "dtypes": rng.choice([["f8"], ["f8", "f4"], ["f8", "i8"]]),
+            "tape": True,
+            "checkpoints": True,
+            "initial_guard": True,
+        }
+        g = Gen(rng, cfg)
+        from .gen import G
+
+        if cfg["lane"] == "guard_off":
+            g.emit({"k": "toggle", "on": False})
+        for _ in range(rng.randint(1, 3)):
+            g.arr()
+        g.leaf()
+        for _ in range(rng.randint(5, 25)):
+            k = g.wchoice([("wrap", 5), ("conv", 4), ("awrite", 4), ("unary", 2), ("binary", 3), ("view", 1.5), ("backward", 1.5), ("arr", 1), ("drop_t", 1), ("leaf", 0.5), ("reduce", 1)])
+            if k == "wrap":
+                hs = sorted(g.a)
+                if not hs:
+                    continue
+                src = rng.choice(hs)
+                how = rng.choice(["tensor_copy", "tensor_nocopy", "astensor", "Tensor", "Tensor_nocopy"])
+                v = g.a[src]
+                dtc = None
+                if rng.random() < 0.25:
+                    dtc = rng.choice(["f8", "f4"])
+                h = g.new_h()
+                c = rng.choice([None, None, None, True])
+                g.emit({"k": "wrap", "out": h, "src": src, "how": how, "constant": c, "dtype": dtc})
+                same_dt = dtc is None or np.dtype({"f8": np.float64, "f4": np.float32}[dtc]) == v.dtype
+                shares = how in ("tensor_nocopy", "astensor", "Tensor_nocopy") and same_dt
+                val = v if shares else np.array(v, dtype=({"f8": np.float64, "f4": np.float32}[dtc] if dtc else v.dtype), copy=True)
+                g.fam_id += 1
+                g.t[h] = G(val, c if c is not None else (val.dtype.kind != "f"), -1, g.fam_id)
+            elif k == "conv":
+                hs = g.tensors()
+                if not hs:
+                    continue
+                src = rng.choice(hs)
+                how = rng.choice(["astensor", "astensor", "tensor_nocopy", "tensor_copy", "copy", "astype", "asarray"])
+                v = g.t[src].val
+                ev = {"k": "conv", "how": how, "src": src, "out": g.new_h()}
+                if how in ("astensor", "tensor_nocopy", "tensor_copy", "astype") and rng.random() < 0.3 and v.dtype.kind == "f":
+                    ev["dtype"] = rng.choice(["f8", "f4"])
+                if how != "asarray" and rng.random() < 0.2:
+                    ev["constant"] = rng.choice([True, False]) if v.dtype.kind == "f" else True
+                g.emit(ev)
+                if how == "asarray":
+                    g.a[ev["out"]] = v
+                    g.a_ro[ev["out"]] = False
+                else:
+                    dtc = ev.get("dtype")
+                    npdt = {"f8": np.float64, "f4": np.float32}.get(dtc, v.dtype.type)
+                    same = (dtc is None or np.dtype(npdt) == v.dtype) and (ev.get("constant") is None or ev["constant"] is g.t[src].const)
+                    g.fam_id += 1
+                    if how in ("astensor", "tensor_nocopy") and same:
+                        g.t[ev["out"]] = g.t[src]
+                    else:
+                        g.t[ev["out"]] = G(np.array(v, dtype=npdt, copy=True), ev.get("constant", g.t[src].const if how in ("copy", "astype") else None) or False, -1, g.fam_id)
+            elif k == "awrite":
+                hs = sorted(g.a)
+                if not hs:
+                    continue
+                a = rng.choice(hs)
+                val = float(rng.randint(-9, 9)) + 0.5
+                g.emit({"k": "awrite", "a": a, "val": val})
+                if g.a[a].flags.writeable:
+                    g.a[a][...] = val
+            elif k == "backward":
+                PROPS["C08"]._g_backward(g, {}, 0)
+            elif k == "arr":
+                g.arr()
+            elif k == "drop_t":
+                PROPS["C08"]._g_drop_t(g, {}, 0)
+            elif k == "view":
+                g.op_view()
+            elif k == "leaf":
+                g.leaf()
+            else:
+                getattr(g, "op_" + k)()
+        hs = [h for h in g.float_tensors() if not g.t[h].const]
+        if hs:
+            g.backward(rng.choice(hs))
+        return {"prop": self.id, "cfg": cfg, "events": g.ev}
+
+    def observers(self, hist):
+        return [O.AliasOracle(), O.GradOracle("C17", judge_keep=False)]
+
+    def after_run(self, hist, w):
+        # astensor(t) returned t itself: the history must behave exactly as if it had never been called
+        aliases = dict(w.alias_of_all)
+        if not aliases:
+            return
+        import copy
+
+        ev2 = []
+        for e in hist["events"]:
+            if e["k"] == "conv" and e.get("out") in aliases:
+                continue
+            e2 = copy.deepcopy(e)
+            for r in e2.get("args", []):
+                if "t" in r and r["t"] in aliases:
+                    r["t"] = aliases[r["t"]]
+            for key in ("tgt", "src", "h"):
+                if key in e2 and e2[key] in aliases and e2["k"] != "drop":
+                    e2[key] = aliases[e2[key]]
+            if e2["k"] == "drop" and e2.get("kind") == "T" and e2["h"] in aliases:
+                continue
+            ev2.append(e2)
+        tw = run_twin(hist, ev2)
+        compare_checkpoints(w, tw, "C17", "C17.astensor_identity_twin", grads="all", skip_handles=set(aliases), what="astensor-calls-removed")
+
+    def nontrivial(self, world):
+        return world.probes.get("c17.later_write_checked", 0) > 0
+
+
+register(C17())
